@@ -110,8 +110,8 @@ Proof.
   eexists. split; [reflexivity|]. apply dicom_scale_spec.
 Qed.
 
-Lemma CropAndPad_dicom keep d cp pp pv pvm rr rc rs ip c r s : (0 < rr)%Z -> (0 < rc)%Z ->
-  exists d', CropAndPad_apply_to_dicom keep d cp pp pv pvm rr rc rs ip c r s = Ok d' /\
+Lemma CropAndPad_dicom keep pm d cp pp pv pvm rr rc rs ip c r s : (0 < rr)%Z -> (0 < rc)%Z ->
+  exists d', CropAndPad_apply_to_dicom keep pm d cp pp pv pvm rr rc rs ip c r s = Ok d' /\
     if keep then
       h_spacing d' = (fst (h_spacing d) * (inject_Z r / inject_Z rr), snd (h_spacing d) * (inject_Z c / inject_Z rc)) /\
       same_but_spacing d' d
